@@ -1215,11 +1215,13 @@ func c14Escape(c *Ctx) {
 		caller *ssa.Function
 		callee *ssa.Function
 		arg    int
-		status string // private | live | param:<name>
+		sub    string // "" or the field of a by-value parameter bundle the execution travels in
+		status string // private | live | param:<name>[#field] | field:<key>
 		pos    string
 	}
 	var sites []site
 	var callArgs []callArg
+	fieldStores := map[string][]callArg{} // helper-object field -> what is stored there
 	nCalls, nFuncs := 0, 0
 	isApplyClosure := func(fn *ssa.Function) bool {
 		return fn.Parent() != nil
@@ -1244,14 +1246,29 @@ func c14Escape(c *Ctx) {
 			if t.Op == "param" && !isApplyClosure(fn) {
 				return "param:" + t.Aux
 			}
+			if t.Op == "fld" && t.Args[0].Op == "param" && !isApplyClosure(fn) {
+				return "param:" + t.Args[0].Aux + "#" + t.Aux // travels in a by-value parameter bundle
+			}
 			if t.IsNilConst() {
 				return "private"
+			}
+			// carried in a field of a library-internal helper object: as good as what is stored there
+			if t.Op == "init" && t.Args[0].Op == "faddr" && isHelperObjectField(c.P, t.Args[0].Aux) {
+				return "field:" + t.Args[0].Aux
 			}
 			return "live"
 		}
 		seenSite := map[string]bool{}
 		for _, p := range ps {
+			for k, v := range p.State.cells {
+				if k.Op == "faddr" && v != nil && v.Typ != nil && isExecType(v.Typ) != "" && isHelperObjectField(c.P, k.Aux) {
+					fieldStores[k.Aux] = append(fieldStores[k.Aux], callArg{caller: fn, status: statusOf(p, v), pos: c.P.FuncPos(fn)})
+				}
+			}
 			for _, e := range p.Events() {
+				if e.Kind == EvStore && e.Addr != nil && e.Addr.Op == "faddr" && e.Val != nil && e.Val.Typ != nil && isExecType(e.Val.Typ) != "" && isHelperObjectField(c.P, e.Addr.Aux) {
+					fieldStores[e.Addr.Aux] = append(fieldStores[e.Addr.Aux], callArg{caller: fn, status: statusOf(p, e.Val), pos: c.P.Pos(e.Instr.Pos())})
+				}
 				if e.Kind != EvCall {
 					continue
 				}
@@ -1262,6 +1279,9 @@ func c14Escape(c *Ctx) {
 						continue
 					}
 					sig, _ := e.FnTerm.Typ.Underlying().(*types.Signature)
+					if sig != nil && returnsPolicyResult(sig) {
+						continue // a link of the policy chain kept in a field (func(Execution) *PolicyResult), not a user callback
+					}
 					nCalls++
 					for ai, a := range e.Args {
 						var declared types.Type
@@ -1291,8 +1311,8 @@ func c14Escape(c *Ctx) {
 							}
 							seenSite[key] = true
 							s := site{fn: fn, what: f, pos: c.P.Pos(e.Instr.Pos())}
-							if strings.HasPrefix(st, "param:") {
-								s.param = strings.TrimPrefix(st, "param:")
+							if strings.HasPrefix(st, "param:") || strings.HasPrefix(st, "field:") {
+								s.param = st
 							}
 							sites = append(sites, s)
 						}
@@ -1323,7 +1343,21 @@ func c14Escape(c *Ctx) {
 						off = 1
 					}
 					for ai, a := range e.Args {
-						if ai+off >= len(params) || isExecType(params[ai+off].Type()) == "" {
+						if ai+off >= len(params) {
+							continue
+						}
+						if a.Op == "struct" && a.Typ != nil {
+							if sct, isS := a.Typ.Underlying().(*types.Struct); isS && sct.NumFields() == len(a.Args) {
+								for fi, sub := range a.Args {
+									if isExecType(sct.Field(fi).Type()) != "" {
+										k, _ := fieldKey(a.Typ, fi)
+										callArgs = append(callArgs, callArg{caller: fn, callee: eFn, arg: ai + off, sub: k, status: statusOf(p, sub), pos: c.P.Pos(e.Instr.Pos())})
+									}
+								}
+							}
+							continue
+						}
+						if isExecType(params[ai+off].Type()) == "" {
 							continue
 						}
 						callArgs = append(callArgs, callArg{caller: fn, callee: eFn, arg: ai + off, status: statusOf(p, a), pos: c.P.Pos(e.Instr.Pos())})
@@ -1358,9 +1392,36 @@ func c14Escape(c *Ctx) {
 			continue
 		}
 		seenF[k] = true
+		follow := func(ca callArg, via string) {
+			switch {
+			case ca.status == "private":
+			case strings.HasPrefix(ca.status, "param:") || strings.HasPrefix(ca.status, "field:"):
+				work = append(work, fwd{ca.caller, ca.status, w.what, w.depth + 1})
+			default:
+				ok = false
+				c.Fail(c.fn(ca.caller)+"→"+w.what, ca.pos, fmt.Sprintf("the live execution is passed to %s, which hands it to user callback %s: user code reading LastResult/LastError races with Cancel", via, w.what), "")
+			}
+		}
+		if strings.HasPrefix(w.param, "field:") {
+			key := strings.TrimPrefix(w.param, "field:")
+			stores := fieldStores[key]
+			if len(stores) == 0 {
+				ok = false
+				c.Fail(c.fn(w.fn)+"→"+w.what, c.P.FuncPos(w.fn), fmt.Sprintf("user callback %s receives an execution kept in %s, and nothing shows what is stored there", w.what, key), "")
+			}
+			for _, ca := range stores {
+				follow(ca, "field "+key)
+			}
+			continue
+		}
+		pname := strings.TrimPrefix(w.param, "param:")
+		sub := ""
+		if i := strings.Index(pname, "#"); i >= 0 {
+			pname, sub = pname[:i], pname[i+1:]
+		}
 		pi := -1
 		for i, p := range w.fn.Params {
-			if p.Name() == w.param {
+			if p.Name() == pname {
 				pi = i
 			}
 		}
@@ -1369,17 +1430,10 @@ func c14Escape(c *Ctx) {
 		}
 		// exported API methods taking an execution from the user are out of scope (the user owns that value)
 		for _, ca := range callArgs {
-			if ca.callee != w.fn || ca.arg != pi {
+			if ca.callee != w.fn || ca.arg != pi || ca.sub != sub {
 				continue
 			}
-			switch {
-			case ca.status == "private":
-			case strings.HasPrefix(ca.status, "param:"):
-				work = append(work, fwd{ca.caller, strings.TrimPrefix(ca.status, "param:"), w.what, w.depth + 1})
-			default:
-				ok = false
-				c.Fail(c.fn(ca.caller)+"→"+w.what, ca.pos, fmt.Sprintf("the live execution is passed to %s, which hands it to user callback %s: user code reading LastResult/LastError races with Cancel", c.fn(w.fn), w.what), "")
-			}
+			follow(ca, c.fn(w.fn))
 		}
 	}
 	c.Count("functions evaluated for escape", nFuncs)
@@ -1387,6 +1441,35 @@ func c14Escape(c *Ctx) {
 	if ok {
 		c.Ok("library#escape-to-user", "", fmt.Sprintf("%d user-callback invocations in %d functions: every Execution / ExecutionAttempt argument is a private copy (CopyWithResult / copy), directly or at every call site of the forwarding helper; live executions are only passed as ExecutionInfo", nCalls, nFuncs))
 	}
+}
+
+// isHelperObjectField: the field (given by its faddr key "pkg.Type.field") belongs to an unexported struct of the
+// library that is not one of the long-lived objects (execution, executor, policy, config): a method object or
+// parameter bundle that lives for one call.
+func isHelperObjectField(p *Program, key string) bool {
+	parts := strings.SplitN(key, ".", 3)
+	if len(parts) != 3 {
+		return false
+	}
+	n := p.NamedType(parts[0], parts[1])
+	if n == nil || n.Obj().Exported() {
+		return false
+	}
+	switch typeCanonName(n.Obj()) {
+	case "execution", "executor", "config", "executionResult":
+		return false
+	}
+	return true
+}
+
+// returnsPolicyResult: the function type yields a *common.PolicyResult: the library's own chain functions do, no
+// user-supplied callback does.
+func returnsPolicyResult(sig *types.Signature) bool {
+	if sig.Results().Len() != 1 {
+		return false
+	}
+	n := namedOfPtr(sig.Results().At(0).Type())
+	return n != nil && n.Obj().Name() == "PolicyResult" && n.Obj().Pkg() != nil && n.Obj().Pkg().Name() == "common"
 }
 
 // c14LiveReads: library-internal calls of the unlocked getters on an execution.
